@@ -17,12 +17,15 @@ def main():
     from sketchnu.helpers import parallel_add
     from vmon.spawn_cases import callbacks
 
-    items = case["items"]
+    from vmon.par_common import materialise
+
+    items, table = materialise(case.get("item_kind", "dict"), case["items"])
     src = (it for it in items) if case.get("as_generator") else items
     out = {"pid": os.getpid()}
     t0 = time.time()
     try:
-        res = parallel_add(src, callbacks.process_item, n_workers=case["n_workers"], event_file=case["event_file"], **case["args"])
+        res = parallel_add(src, callbacks.process_item, n_workers=case["n_workers"], event_file=case["event_file"], table=table,
+                           **case["args"])
         out["outcome"] = "returned"
         tup = res if isinstance(res, tuple) else (res,)
         out["types"] = [type(x).__name__ for x in tup]
